@@ -765,6 +765,36 @@ def D2(ctx):
     ctx.floor("D2", n, 5, "4 blocking calls + notify")
 
 
+def S5b(ctx):
+    """Whenever an acquisition succeeds, the loop that blocks the threads pending on the lock has run: the success return of
+    post_acquire* is dominated by that loop (not skipped under a flag computed before the branch point)."""
+    prog = ctx.prog
+    n = 0
+    for fk in ("rt::mutex::Mutex::post_acquire", "rt::rwlock::RwLock::post_acquire_read_lock", "rt::rwlock::RwLock::post_acquire_write_lock"):
+        sites = [s_ for s_ in _transition_sites(prog, "set_blocked") if enclosing_fn(s_["fn"]) == fk and
+                 not receiver_is_active(prog.fns[s_["fn"]].body, s_["term"])]
+        if not sites:
+            continue
+        for k in sorted({s_["fn"] for s_ in sites}):
+            body = prog.fns[k].body
+            inst = prog.ident(k)
+            n += 1
+            dom = body.dominators()
+            nexts = [b for (b, t, c) in prog.sites(inst) if callee_path(t) == "std::iter::Iterator::next"]
+            heads = [nb for nb in nexts if any(nb in dom[s_["bb"]] for s_ in sites if s_["fn"] == k)]
+            rets = blocks_assigning_ret(body, lambda e: is_const_bool(e, True))
+            if not heads or not rets:
+                ctx.missing("S5b", fk, "block loop or success return not found")
+                continue
+            skipped = [r for r in rets if not any(h in dom[r] for h in heads)]
+            if skipped:
+                ctx.bad("S5b", fk, "a successful acquisition can return without running the loop that blocks the other pending threads: "
+                        "a pending thread stays runnable although the lock is now held incompatibly", site_str(prog, k, skipped[0]), detail="skipped")
+            else:
+                ctx.ok("S5b", fk, "every success return follows the block loop", [site_str(prog, k, heads[0])])
+    ctx.floor("S5b", n, 3, "mutex, rwlock read, rwlock write")
+
+
 def S9(ctx):
     """Wake / block loops visit every thread: after waking (or blocking) one thread the loop continues with the next
     (no `break`, no `find`-first): otherwise waiters are woken in a fixed order / some are never examined."""
@@ -790,6 +820,6 @@ def S9(ctx):
 
 
 def run_all(ctx, which):
-    table = dict(S1=S1, S2=S2, S3=S3, S4=S4, S5=S5, S6=S6, S7=S7, S8=S8, S9=S9, D1=D1, D2=D2)
+    table = dict(S1=S1, S2=S2, S3=S3, S4=S4, S5=S5, S5b=S5b, S6=S6, S7=S7, S8=S8, S9=S9, D1=D1, D2=D2)
     for w in which:
         table[w](ctx)
